@@ -23,23 +23,23 @@ Notation idv := (idv F).
 (* the frame at the entry of a sweep >= 1: `next` variables hold the state s, the history lists hold h / er *)
 Definition Ev (hist : bool) (mi : Z) (isstop errv kv brk pp qp xp yp : val F) (s : dstate F)
     (h : list (dstate F)) (er : list (option F)) : env F :=
-  upd "is_stopping" isstop (upd "error_value" errv (upd "k" kv (upd "$break" brk
-  (upd "p_prev" pp (upd "q_prev" qp (upd "x_prev" xp (upd "y_prev" yp
-  (upd "p_next" (VVec (sp s)) (upd "q_next" (VVec (sq s)) (upd "x_next" (VVec (sx s)) (upd "y_next" (VVec (sy s))
-  (upd "ps" (LV hist (map fp h)) (upd "qs" (LV hist (map fq h)) (upd "xs" (LV hist (map fx h)) (upd "ys" (LV hist (fy h))
-  (upd "error_values" (LV hist (map fe er))
-  (upd "is_iteration_history" (VBool hist) (upd "max_iteration" (VInt mi)
-  (upd "self" (VVec conv_in)
+  upd N_is_stopping isstop (upd N_error_value errv (upd N_k kv (upd N_break brk
+  (upd N_p_prev pp (upd N_q_prev qp (upd N_x_prev xp (upd N_y_prev yp
+  (upd N_p_next (VVec (sp s)) (upd N_q_next (VVec (sq s)) (upd N_x_next (VVec (sx s)) (upd N_y_next (VVec (sy s))
+  (upd N_ps (LV hist (map fp h)) (upd N_qs (LV hist (map fq h)) (upd N_xs (LV hist (map fx h)) (upd N_ys (LV hist (fy h))
+  (upd N_error_values (LV hist (map fe er))
+  (upd N_is_iteration_history (VBool hist) (upd N_max_iteration (VInt mi)
+  (upd N_self (VVec conv_in)
   (@env0 F)))))))))))))))))))).
 (* the frame just before the loop *)
 Definition E0 (hist : bool) (mi : Z) : env F :=
-  upd "$break" (VBool false) (upd "is_stopping" (VBool false)
-  (upd "p_prev" (VVec vzero) (upd "q_prev" (VVec vzero) (upd "x_prev" (VVec conv_in) (upd "y_prev" VNone
-  (upd "p_next" VNone (upd "q_next" VNone (upd "x_next" VNone (upd "y_next" VNone
-  (upd "ps" (LV hist [VVec vzero]) (upd "qs" (LV hist [VVec vzero]) (upd "xs" (LV hist [VVec conv_in]) (upd "ys" (LV hist [VNone])
-  (upd "error_values" (LV hist [])
-  (upd "is_iteration_history" (VBool hist) (upd "max_iteration" (VInt mi)
-  (upd "self" (VVec conv_in)
+  upd N_break (VBool false) (upd N_is_stopping (VBool false)
+  (upd N_p_prev (VVec vzero) (upd N_q_prev (VVec vzero) (upd N_x_prev (VVec conv_in) (upd N_y_prev VNone
+  (upd N_p_next VNone (upd N_q_next VNone (upd N_x_next VNone (upd N_y_next VNone
+  (upd N_ps (LV hist [VVec vzero]) (upd N_qs (LV hist [VVec vzero]) (upd N_xs (LV hist [VVec conv_in]) (upd N_ys (LV hist [VNone])
+  (upd N_error_values (LV hist [])
+  (upd N_is_iteration_history (VBool hist) (upd N_max_iteration (VInt mi)
+  (upd N_self (VVec conv_in)
   (@env0 F)))))))))))))))))).
 
 Notation vvars := (gen_calc_proj_physical__vars).
@@ -49,18 +49,18 @@ Notation vbody := (gen_calc_proj_physical__loop_body F n orc sattr).
 Ltac ev_orc t :=
   match t with
   | context C [C05_EquivBase.orc ?a1 ?a2 ?a3 ?a4 ?a5 ?nm ?args] =>
-      let r := eval cbv [C05_EquivBase.orc String.eqb Ascii.eqb Bool.eqb andb is_tok] in (C05_EquivBase.orc a1 a2 a3 a4 a5 nm args) in
+      let r := eval lazy [C05_EquivBase.orc String.eqb Ascii.eqb Bool.eqb andb is_tok] in (C05_EquivBase.orc a1 a2 a3 a4 a5 nm args) in
       let t' := context C [r] in ev_orc t'
   | _ => t
   end.
 Ltac evv t :=
-  let t1 := eval cbv [upd restrict String.eqb Ascii.eqb Bool.eqb andb env0 empty raise
+  let t1 := eval lazy [upd restrict Pos.eqb N_err N_printed N_break N_ret String.eqb Ascii.eqb Bool.eqb andb env0 empty raise
                 v_add v_sub v_mul v_pow2 v_npsum v_npdot v_is_none v_is_not_none v_and v_or v_append v_unpack
                 List.length Nat.eqb List.nth C05_EquivBase.sattr is_tok Ev E0 C05_EquivBase.LV
                 gen_calc_proj_physical__vars] in t in
   let t2 := ev_orc t1 in
-  eval cbv [v_add v_sub] in t2.
-Ltac lookups := cbv [restrict gen_calc_proj_physical__vars upd String.eqb Ascii.eqb Bool.eqb andb Ev E0 C05_EquivBase.LV env0 empty
+  eval lazy [v_add v_sub] in t2.
+Ltac lookups := lazy [restrict gen_calc_proj_physical__vars upd Pos.eqb N_err N_printed N_break N_ret String.eqb Ascii.eqb Bool.eqb andb Ev E0 C05_EquivBase.LV env0 empty
                      C05_EquivBase.sattr C05_EquivBase.orc is_tok].
 (* case split on a boolean flag at the statement that first tests it *)
 Ltac split_flag := match goal with |- context [s_if (VBool ?c) _ _ _] => is_var c; destruct c end.
@@ -68,25 +68,30 @@ Ltac split_flag := match goal with |- context [s_if (VBool ?c) _ _ _] => is_var 
 Lemma obody_S : forall (b hist : bool) mi k s h er pp qp xp yp errv kv, String.eqb mode "eq_ineq" = b -> h <> [] ->
   let s' := step F idv (PA b) (PB b) (S k) s in
   let stop := ltb F (br F n s s') eps in
-  restrict vvars (vbody (upd "k" (VInt (Z.of_nat (S k))) (restrict vvars (Ev hist mi (VBool false) errv kv (VBool false) pp qp xp yp s h er))))
+  restrict vvars (vbody (upd N_k (VInt (Z.of_nat (S k))) (restrict vvars (Ev hist mi (VBool false) errv kv (VBool false) pp qp xp yp s h er))))
   = restrict vvars (Ev hist mi (VBool stop) (VNum (br F n s s')) (VInt (Z.of_nat (S k))) (VBool stop)
                        (VVec (sp s)) (VVec (sq s)) (VVec (sx s)) (VVec (sy s)) s' (h ++ [s'])%list (er ++ [Some (br F n s s')])%list).
 Proof. intros b hist mi k s h er pp qp xp yp errv kv Hb Hh s' stop.
   assert (Hm : v_eq (VStr mode) (@VStr F "eq_ineq") = VBool b) by (unfold v_eq; now rewrite Hb).
-  pose proof (fy_app F h s' Hh) as Hfy.
-  unfold gen_calc_proj_physical__loop_body. subst stop.
-  repeat first [ py_step evv | rewrite Hm | rewrite (v_ge_1_S F k) | rewrite gen_is_satisfied_qoperations_equiv by (intros; reflexivity) | split_flag
-               | match goal with |- context [s_if (VBool (ltb F (br F n ?A ?B) eps)) _ _ _] =>
-                   change (br F n A B) with (br F n s s'); destruct (ltb F (br F n s s') eps) end ];
-  unfold gen_calc_proj_physical__vars;
-  py_frames_eq ltac:(lookups; rewrite ?map_app, ?Hfy; reflexivity).
+  pose proof (fy_app F h s' Hh) as Hfy. subst stop.
+  destruct hist, b; destruct (ltb F (br F n s s') eps) eqn:Hstop;
+  ( match goal with |- restrict _ (gen_calc_proj_physical__loop_body _ _ _ _ ?E) = _ =>
+    eassert (Hrun : vbody E = _) by
+      ( unfold gen_calc_proj_physical__loop_body;
+        py_run evv ltac:(rewrite ?Hm, ?(v_ge_1_S F k), ?gen_is_satisfied_qoperations_equiv by (intros; reflexivity);
+                         repeat match goal with |- context [br F n ?A ?B] =>
+                           lazymatch A with s => fail | _ => change (br F n A B) with (br F n s s') end end;
+                         rewrite ?Hstop) ltac:(fail) ) end;
+    rewrite Hrun; clear Hrun;
+    unfold gen_calc_proj_physical__vars;
+    py_frames_eq ltac:(lookups; rewrite ?map_app, ?Hfy; reflexivity) ).
 Qed.
 
 (* the loop from sweep S k on, by induction on the remaining fuel *)
 Lemma oloop : forall (b hist : bool) mi, String.eqb mode "eq_ineq" = b ->
   forall fuel k s h er pp qp xp yp errv, h <> [] ->
   exists pp' qp' xp' yp' errv' brk',
-  for_range vvars "k" fuel (S k) vbody
+  for_range vvars N_k fuel (S k) vbody
     (restrict vvars (Ev hist mi (VBool false) errv (VInt (Z.of_nat k)) (VBool false) pp qp xp yp s h er))
   = restrict vvars (Ev hist mi (VBool (r_stopped (loop F n idv (PA b) (PB b) eps fuel (S k) s h er))) errv'
                        (VInt (Z.of_nat (pred (r_steps (loop F n idv (PA b) (PB b) eps fuel (S k) s h er))))) brk' pp' qp' xp' yp'
@@ -98,8 +103,8 @@ Proof. intros b hist mi Hb fuel. induction fuel as [|f IH]; intros k s h er pp q
   - rewrite for_range_S, (obody_S b hist mi k s h er pp qp xp yp errv _ Hb Hh).
     cbn [loop Nat.leb].
     set (s' := step F idv (PA b) (PB b) (S k) s). set (stop := ltb F (br F n s s') eps).
-    match goal with |- context [restrict ?vs ?E "$break"] =>
-      change (restrict vs E "$break") with (@VBool F stop) end.
+    match goal with |- context [restrict ?vs ?E N_break] =>
+      change (restrict vs E N_break) with (@VBool F stop) end.
     destruct stop.
     + do 6 eexists. cbn [r_stopped r_steps r_final r_hist r_errs pred]. reflexivity.
     + apply IH. intros G. apply app_eq_nil in G. destruct G as [_ G]. discriminate. Qed.
@@ -108,25 +113,29 @@ Proof. intros b hist mi Hb fuel. induction fuel as [|f IH]; intros k s h er pp q
 Lemma ofirst : forall (b hist : bool) mi, String.eqb mode "eq_ineq" = b ->
   let s0 := init F idv conv_in in
   let s1 := step F idv (PA b) (PB b) 0 s0 in
-  restrict vvars (vbody (upd "k" (VInt (Z.of_nat 0)) (restrict vvars (E0 hist mi))))
+  restrict vvars (vbody (upd N_k (VInt (Z.of_nat 0)) (restrict vvars (E0 hist mi))))
   = restrict vvars (Ev hist mi (VBool false) VNone (VInt (Z.of_nat 0)) (VBool false)
                        (VVec vzero) (VVec vzero) (VVec conv_in) VNone s1 [s0; s1] [None]).
 Proof. intros b hist mi Hb s0 s1.
   assert (Hm : v_eq (VStr mode) (@VStr F "eq_ineq") = VBool b) by (unfold v_eq; now rewrite Hb).
-  unfold gen_calc_proj_physical__loop_body.
-  repeat first [ py_step evv | rewrite Hm | rewrite (v_ge_1_0 F) | split_flag ];
-  unfold gen_calc_proj_physical__vars;
-  py_frames_eq ltac:(lookups; cbv [C05_EquivBase.fy C05_EquivBase.fp C05_EquivBase.fq C05_EquivBase.fx C05_EquivBase.fe map tl]; reflexivity).
+  destruct hist, b;
+  ( match goal with |- restrict _ (gen_calc_proj_physical__loop_body _ _ _ _ ?E) = _ =>
+      eassert (Hrun : vbody E = _) by
+        ( unfold gen_calc_proj_physical__loop_body;
+          py_run evv ltac:(rewrite ?Hm, ?(v_ge_1_0 F)) ltac:(fail) ) end;
+    rewrite Hrun; clear Hrun;
+    unfold gen_calc_proj_physical__vars;
+    py_frames_eq ltac:(lookups; lazy [C05_EquivBase.fy C05_EquivBase.fp C05_EquivBase.fq C05_EquivBase.fx C05_EquivBase.fe map tl]; reflexivity) ).
 Qed.
 
 Theorem gen_obj_equiv : forall (hist : bool) (max_iter : nat),
   let b := String.eqb mode "eq_ineq" in
   let e := gen_calc_proj_physical F n orc sattr (VVec conv_in) (VInt (Z.of_nat max_iter)) (VBool hist) in
   match run_mode F n idv (fun _ => Peq) (fun _ => Pineq) b eps max_iter conv_in with
-  | None => e "$err" = VBool true
+  | None => e N_err = VBool true
   | Some r =>
-      e "$err" = VBool false /\ e "$printed" = VBool (warned F max_iter r) /\
-      e "$ret" = (if hist
+      e N_err = VBool false /\ e N_printed = VBool (warned F max_iter r) /\
+      e N_ret = (if hist
                   then VTuple [VVec (sx (r_final r));
                                VDict [("p", VList (map fp (r_hist r))); ("q", VList (map fq (r_hist r)));
                                       ("x", VList (map fx (r_hist r))); ("y", VList (fy (r_hist r)));
@@ -134,12 +143,16 @@ Theorem gen_obj_equiv : forall (hist : bool) (max_iter : nat),
                   else VVec (sx (r_final r)))
   end.
 Proof. intros hist max_iter b e. subst e.
-  unfold gen_calc_proj_physical, gen_calc_proj_physical__body.
+  unfold gen_calc_proj_physical.
   destruct max_iter as [|f].
   - cbn [run_mode run_dykstra].
-    repeat first [ py_step evv | split_flag ]; unfold s_for; cbn [Z.to_nat Z.of_nat for_range];
-    repeat first [ py_step evv | rewrite v_eq_unbound | split_flag ];
-    lookups; reflexivity.
+    destruct hist;
+    ( match goal with |- context [gen_calc_proj_physical__body _ _ _ _ ?vs ?E] =>
+        eassert (Hrun : gen_calc_proj_physical__body F n orc sattr vs E = _) by
+          ( unfold gen_calc_proj_physical__body;
+            py_run evv ltac:(rewrite ?v_eq_unbound)
+                   ltac:(unfold s_for; cbn [Z.to_nat Z.of_nat for_range]; reflexivity) ) end;
+      rewrite Hrun; lookups; reflexivity ).
   - cbn [run_mode run_dykstra loop Nat.leb app]. fold (PA b) (PB b).
     set (s0 := init F idv conv_in). set (s1 := step F idv (PA b) (PB b) 0 s0).
     assert (Hb : String.eqb mode "eq_ineq" = b) by reflexivity. clearbody b.
@@ -148,22 +161,24 @@ Proof. intros hist max_iter b e. subst e.
                 ltac:(discriminate)) as (pp' & qp' & xp' & yp' & errv' & brk' & Hl).
     pose proof (ofirst b hist (Z.of_nat (S f)) Hb) as Hf. cbv zeta in Hf. fold s0 s1 in Hf.
     assert (H0 : forall E, restrict vvars E = restrict vvars (E0 hist (Z.of_nat (S f))) ->
-                 for_range vvars "k" (S f) 0 vbody (restrict vvars E)
+                 for_range vvars N_k (S f) 0 vbody (restrict vvars E)
                  = restrict vvars (Ev hist (Z.of_nat (S f)) (VBool (r_stopped (loop F n idv (PA b) (PB b) eps f 1 s1 [s0; s1] [None]))) errv'
                        (VInt (Z.of_nat (pred (r_steps (loop F n idv (PA b) (PB b) eps f 1 s1 [s0; s1] [None]))))) brk' pp' qp' xp' yp'
                        (r_final (loop F n idv (PA b) (PB b) eps f 1 s1 [s0; s1] [None]))
                        (r_hist (loop F n idv (PA b) (PB b) eps f 1 s1 [s0; s1] [None]))
                        (r_errs (loop F n idv (PA b) (PB b) eps f 1 s1 [s0; s1] [None])))).
     { intros E HE. rewrite for_range_S, HE, Hf.
-      match goal with |- context [restrict ?vs ?E' "$break"] => change (restrict vs E' "$break") with (@VBool F false) end.
+      match goal with |- context [restrict ?vs ?E' N_break] => change (restrict vs E' N_break) with (@VBool F false) end.
       cbv iota. exact Hl. }
-    clear Hl Hf.
-    repeat first [ py_step evv | split_flag ]; unfold s_for; rewrite Nat2Z.id;
-    ( rewrite H0 by (unfold gen_calc_proj_physical__vars; py_frames_eq ltac:(lookups; reflexivity)) );
-    clear H0; rewrite ?v_eq_int;
-    repeat first [ py_step evv | rewrite v_eq_int | rewrite (warn_test _ f Hst) | split_flag
-                 | match goal with |- context [s_if (VBool (Nat.eqb ?a ?c)) _ _ _] => unfold warned; destruct (Nat.eqb a c) end ];
-    (split; [|split]); lookups; reflexivity.
+    clear Hl Hf. unfold warned.
+    destruct hist; destruct (Nat.eqb (r_steps (loop F n idv (PA b) (PB b) eps f 1 s1 [s0; s1] [None])) (S f)) eqn:Hw;
+    ( match goal with |- context [gen_calc_proj_physical__body _ _ _ _ ?vs ?E] =>
+        eassert (Hrun : gen_calc_proj_physical__body F n orc sattr vs E = _) by
+          ( unfold gen_calc_proj_physical__body;
+            py_run evv ltac:(rewrite ?v_eq_int, ?(warn_test _ f Hst), ?Hw)
+                   ltac:(unfold s_for; rewrite Nat2Z.id; apply H0; unfold gen_calc_proj_physical__vars;
+                         py_frames_eq ltac:(lookups; reflexivity)) ) end;
+      rewrite Hrun; (split; [|split]); lookups; reflexivity ).
 Qed.
 End Obj.
 Print Assumptions gen_obj_equiv.
